@@ -45,7 +45,9 @@ class SymlinkNode(SymlinkNodeMixin):
 
     def __init__(self, target, parent=None, children=None, **kwargs):
         self.target = target
-        self.target.__dict__.update(kwargs)
+        for key, value in kwargs.items():
+            # forward like any later attribute assignment (the target may be a symlink itself)
+            setattr(self.target, key, value)
         self.parent = parent
         if children:
             self.children = children
